@@ -91,6 +91,9 @@ COMMON_ASSUMPTIONS = [
 
 PROPERTY_ASSUMPTIONS = {}
 
+# harnesses per cargo-kani invocation (kani-driver memory grows with the output of every harness it runs)
+CHUNK = {"C12": 16, "C13": 12, "C15": 12, "C14": 8}
+
 SMT_LEMMAS = [
     {"prop": "C12", "tier": "quick", "name": "c12_lemma_i_sum_monotone"},
     {"prop": "C12", "tier": "quick", "name": "c12_lemma_ii_digit_order"},
@@ -161,7 +164,7 @@ for L in range(1, 9):
       H(_p, t, "c13", f"c13_increment_l{L}", flagset="std64", timeout=1200, model="none (pure arithmetic)", encodes=["CompressedUsedLeafsIndexes::increment"],
       forall=_shape(L) + ", sum h <= 63", bounds="exact; unwind 34 covers u64::pow and the level loops", unwind=34)
     for _p in ("C13", "C05"):
-      H(_p, t if L <= 2 or _p == "C13" else "thorough", "c13", f"c13_lifetime_l{L}", flagset="std64", timeout=3600, model="none", encodes=["HssPrivateKey::get_lifetime", "CompressedUsedLeafsIndexes::to", "LmsParameter::number_of_lm_ots_keys"],
+      H(_p, t if L <= 3 or _p == "C13" else "thorough", "c13", f"c13_lifetime_l{L}", flagset="std64", timeout=3600, model="none", encodes=["HssPrivateKey::get_lifetime", "CompressedUsedLeafsIndexes::to", "LmsParameter::number_of_lm_ots_keys"],
       forall=_shape(L) + ", sum h <= 63; key state as HssPrivateKey::from leaves it (upper levels used q_i+1, bottom q_L)", bounds="exact", unwind=34)
     for _p in ("C13", "C03"):
       H(_p, t, "c13", f"c13_digits_l{L}", flagset="std64", timeout=3600, model="none", encodes=["CompressedUsedLeafsIndexes::to"],
@@ -210,7 +213,7 @@ for prop in ("C04", "C11"):
     for name, n, aux in (("c04_malformed_key_n16", 16, False), ("c04_malformed_key_aux_n16", 16, True), ("c04_malformed_key_n32", 32, False)):
         H(prop, "thorough" if aux else "quick", "c04", name, config="w8", timeout=3600, model=f"HavocSum{n}", encodes=_pre_fns, unwind=36, replayable="try",
           stubs=DEFAULT_STUBS + ["HssPrivateKey::from -> contracts::model_from_fails (the expansion always fails: every path ends in an error)"],
-          forall="every private-key byte string of every length 0..40 (all 256 values of every byte), 2-byte message, both callback outcomes"
+          forall="every private-key byte string of every length 0..56 (all 256 values of every byte), 2-byte message, both callback outcomes"
                  + (", every auxiliary buffer of every length 0..48 and content" if aux else ""),
           bounds=f"n={n} (valid key length {16+n}); build configuration w8 (8 levels, heights <= 25, W8 only)")
 H("C04", "quick", "c04", "c04_sign_fails_no_callback", config="l1w8h5", timeout=1800, model="HavocSum16", encodes=_sign_fns, unwind=36, replayable=False,
@@ -329,7 +332,8 @@ for name in ("c08_ots_public_key_n16_w8", "c08_ots_public_key_n32_w8", "c08_ots_
 for half in ("sign", "candidate"):
     for inst in ("n16_w8", "n16_w4", "n32_w8"):
         for prop in ("C07", "C01", "C02") if half == "candidate" else ("C07", "C01"):
-            H(prop, "quick" if inst == "n16_w8" else "thorough", "c08d", f"c07_ots_{half}_transcript_{inst}", config="w8" if inst.endswith("w8") else "w4", timeout=7200, model=_recsum, unwind=70,
+            # experimental: CBMC aborts ("appears to have run out of memory") on the smallest instance, with and without a pinned digest
+            H(prop, "experimental", "c08d", f"c07_ots_{half}_transcript_{inst}", config="w8" if inst.endswith("w8") else "w4", timeout=7200, model=_recsum, unwind=70,
               encodes=(["LmotsSignature::sign / sign_core / calculate_signature / calculate_message_hash"] if half == "sign" else ["lm_ots::verify::generate_public_key_candidate"])
                       + ["LmotsParameter::append_checksum_to", "util::coef::coef", "HashChain::do_hash_chain"],
               forall="every chain start value / signature value, identifier, leaf index, randomizer, message of length 0..5, every digest value; reference digits from the Appendix-B formula",
@@ -370,8 +374,8 @@ for name in ("c10_level_selection_h5_n16", "c10_level_selection_h10_n32", "c10_l
     H("C10", "quick", "c10", name, timeout=1200, model="none (pure arithmetic)", encodes=["hss::aux::hss_optimal_aux_level", "hss::aux::hss_get_aux_data_len"], unwind=16,
       forall="every buffer length 0..2^32", bounds="one (height, n) pair per harness")
 for name in ("c10_mac_guard_exact_tail", "c10_mac_guard_missing_tail", "c10_mac_guard_short_tail", "c10_mac_guard_long_tail"):
-    for prop in ("C10", "C09"):
-        H(prop, "quick", "c10", name, timeout=3600, model=_rec, unwind=70,
+    for prop in (("C10", "C09") if name == "c10_mac_guard_exact_tail" else ("C10",)):
+        H(prop, "thorough" if name in ("c10_mac_guard_short_tail", "c10_mac_guard_long_tail") else "quick", "c10", name, timeout=3600, model=_rec, unwind=70,
           encodes=["hss::aux::hss_expand_aux_data", "hss::aux::compute_hmac / compute_hmac_ipad / compute_hmac_opad / compute_seed_derive", "hss::aux::hss_is_aux_data_used"],
           forall="every buffer content (level word assigned: levels 1 and 3, n=16), every seed, every digest value; tail of 16 / 0 / 15 / 17 bytes after the level area",
           bounds="level area 164 bytes")
@@ -382,8 +386,13 @@ H("C10", "quick", "c10", "c10_fresh_buffer_layout_and_finalize", timeout=3600, m
 H("C10", "quick", "c10", "c10_mac_guard_even_levels", timeout=3600, model=_rec, unwind=70,
   encodes=["hss::aux::hss_expand_aux_data", "hss::aux::compute_hmac"], forall="as c10_mac_guard_exact_tail with levels 2 and 4 (even levels, as cached for top trees of height 10/20)", bounds="level area 324 bytes")
 for prop in ("C10", "C11"):
-    H(prop, "quick", "c10", "c10_expand_arbitrary_small_buffer", timeout=3600, model="Havoc16", unwind=40,
-      encodes=["hss::aux::hss_is_aux_data_used", "hss::aux::hss_expand_aux_data"], forall="every buffer of every length 0..40 and content (every level word), with / without seed", bounds="cap 40 bytes")
+    for name in ("c10_expand_arbitrary_len40_seed", "c10_expand_arbitrary_len40_noseed", "c10_expand_arbitrary_len40_lowlevels", "c10_expand_arbitrary_len3_seed", "c10_expand_arbitrary_len4_seed",
+                 "c10_expand_arbitrary_len1_noseed", "c10_expand_arbitrary_len0"):
+        # the 40-byte instances did not finish within 20 minutes: experimental (not part of any registered command)
+        H(prop, "experimental" if ("len40" in name or "len4_" in name) else "quick", "c10", name, timeout=3600, model="Havoc16", unwind=40,
+          encodes=["hss::aux::hss_is_aux_data_used", "hss::aux::hss_expand_aux_data"],
+          forall="every buffer content; one byte of the level word symbolic per instance (byte 0 = marker and level bits 24..30, or byte 3 = levels 0..7); length and seed presence per instance",
+          bounds="cap 40 bytes")
 for prop in ("C04", "C09", "C05"):
     H(prop, "thorough", "c04", "c04_signing_key_entry_light_h5", config="l1w8h5", timeout=7200, model="HavocSum16", unwind=36, replayable=False, stubs=_light_stubs,
       encodes=_tail_fns + ["SigningKey::from_bytes / try_sign / try_sign_with_aux / as_slice"],
@@ -394,7 +403,7 @@ for prop in ("C04", "C09", "C05"):
       encodes=_sign_fns + ["SigningKey::*"], forall="as the light variant, with the real expansion and HSS signing over the LMS contract", bounds="n=16")
 # C14: the same harnesses under reduced / non-uniform build configurations
 for cfg in ("default", "w8", "l1w8h5", "l2w8h5", "l2mixed", "l3mixed", "l3w8h5"):
-    H("C14", "quick", "c14", "c14_capacities_cover_the_limits", config=cfg, timeout=600, model="none (constants)", unwind=12,
+    H("C14", "quick", "c14", "c14_capacities_cover_the_limits", config=cfg, timeout=600, model="none (constants)", unwind=20,
       encodes=["build.rs -> constants::{MAX_ALLOWED_HSS_LEVELS, TREE_HEIGHTS, WINTERNITZ_PARAMETERS, MAX_TREE_HEIGHT, MIN_WINTERNITZ_PARAMETER}",
                "constants::{MAX_NUM_WINTERNITZ_CHAINS, MAX_LMS_SIGNATURE_LENGTH, MAX_HSS_SIGNATURE_LENGTH, get_hss_signature_length}"],
       forall="the constants generated for this configuration vs the RFC length formulas at every level's worst case, for every admissible level count",
@@ -412,7 +421,8 @@ H("C09", "quick", "c09", "c09_derivation_units_twice", flagset="eq", timeout=360
            "SeedDerive::seed_derive", "lm_ots::keygen::generate_private_key"],
   forall="every salt, two seeds, every leaf index; each unit run twice with an unrelated derivation in between", bounds="n=16, W8")
 for name, tier in (("c09_sign_twice_contract_h5", "quick"), ("c09_sign_twice_contract_h5_h5", "thorough")):
-    H("C09", tier, "c09", name, config="l1w8h5" if name.endswith("_h5") and not name.endswith("h5_h5") else "l2w8h5", flagset="eq", timeout=7200, model="ToySum16", unwind=36, replayable=False, stubs=_contract_stubs,
+    # experimental: the reachability witness of the one-level instance is unsatisfiable (harness vacuous for a reason not yet understood)
+    H("C09", "experimental", "c09", name, config="l1w8h5" if name.endswith("_h5") and not name.endswith("h5_h5") else "l2w8h5", flagset="eq", timeout=7200, model="ToySum16", unwind=36, replayable=False, stubs=_contract_stubs,
       encodes=_sign_fns + ["SigningKey::from_bytes / try_sign"],
       forall="every salt, seed, counter of the lifetime, 3-byte message; sign twice through hbs_lms::sign with another key's signing in between, once through SigningKey::try_sign",
       bounds="n=16; LMS layer by contract (deterministic under the toy family)")
